@@ -37,6 +37,21 @@ impl Analysis<Main> for MinDepth {
     }
 }
 
+/// a join analysis whose data GROW: the height of the tallest term of the class, capped (a self-referential class climbs to
+/// the cap step by step, each step re-queues the class's own e-node)
+#[derive(Default)]
+pub struct MaxHeight;
+pub const HEIGHT_CAP: u64 = 6;
+impl Analysis<Main> for MaxHeight {
+    type Data = u64;
+    fn make(eg: &EGraph<Main, Self>, enode: &Main) -> u64 {
+        (1 + enode.applied_id_occurrences().iter().map(|x| *eg.analysis_data(x.id)).max().unwrap_or(0)).min(HEIGHT_CAP)
+    }
+    fn merge(l: u64, r: u64) -> u64 {
+        l.max(r)
+    }
+}
+
 #[derive(Default)]
 pub struct ConstFold;
 impl Analysis<Main> for ConstFold {
@@ -192,6 +207,86 @@ where
             tags: vec!["viol:panic".into(), format!("panic:{}", e.replace(',', " ")), format!("a:{kind}"), format!("history:{}", desc.replace(',', "~"))],
         }),
     }
+}
+
+/// the capped-height analysis is judged by a predicate on the implementation's own answers (the Lean analysis model has the
+/// three decreasing analyses only): after every operation, the datum of every live class is the maximum of `make` over its
+/// e-nodes, computed from the children's current data through the public API
+fn emit_height(ctx: &mut Ctx, ops: &[Op], desc: &str) {
+    let ops2 = ops.to_vec();
+    let r = in_fresh_thread(move || {
+        intern_names();
+        fresh_noise(&enc_ops(&ops2));
+        let mut eg: EGraph<Main, MaxHeight> = EGraph::default();
+        let mut tracked: Vec<AppliedId> = Vec::new();
+        let mut tags: Vec<String> = Vec::new();
+        for (k, op) in ops2.iter().enumerate() {
+            match op {
+                Op::Add(t) => tracked.push(eg.add_expr(to_recexpr::<Main>(t))),
+                Op::Union(i, j) => {
+                    let (a, b) = (tracked[*i].clone(), tracked[*j].clone());
+                    eg.union(&a, &b);
+                }
+                Op::Query => continue,
+            }
+            for i in eg.ids() {
+                let join = eg.enodes(i).iter().map(|n| MaxHeight::make(&eg, n)).max().unwrap_or(0);
+                if *eg.analysis_data(i) != join {
+                    let t = "viol:datum-not-join-of-make".to_string();
+                    if !tags.contains(&t) {
+                        tags.push(t);
+                        tags.push(format!("at-op:{k}"));
+                    }
+                }
+            }
+        }
+        tags
+    });
+    let mut tags = match r {
+        Ok(t) => t,
+        Err(e) => vec!["viol:panic".into(), format!("panic:{}", e.replace(',', " "))],
+    };
+    tags.push("a:maxheight".into());
+    tags.push(format!("history:{}", desc.replace(',', "~")));
+    ctx.emit(Case { line: "echo 1".into(), impl_out: "1".into(), nontrivial: true, tags });
+}
+
+/// self-referential classes: `a = h(a)`, `a = k(a, b)`, and a self-reference that only arises through a later union
+fn gen_selfloop(rng: &mut Rng) -> Vec<Op> {
+    let sym = |s: &str| ATerm { v: 16, fields: vec![CField::Lit(s.to_string())], children: vec![] };
+    let h = |a: ATerm| ATerm { v: 13, fields: vec![CField::App], children: vec![a] };
+    let k = |a: ATerm, b: ATerm| ATerm { v: 14, fields: vec![CField::App, CField::App], children: vec![a, b] };
+    let (a, b) = (sym("a"), sym("b"));
+    let mut ops: Vec<Op> = Vec::new();
+    for i in 0..rng.below(4) {
+        ops.push(Op::Add(ATerm { v: 15, fields: vec![CField::Lit(format!("{}", 40 + i))], children: vec![] }));
+    }
+    let base = ops.len();
+    match rng.below(3) {
+        0 => {
+            ops.push(Op::Add(a.clone()));
+            ops.push(Op::Add(h(a.clone())));
+            ops.push(Op::Add(k(h(a.clone()), b.clone()))); // a parent that has to follow
+            ops.push(Op::Union(base, base + 1));
+        }
+        1 => {
+            ops.push(Op::Add(a.clone()));
+            ops.push(Op::Add(k(a.clone(), b.clone())));
+            ops.push(Op::Add(h(k(a.clone(), b.clone()))));
+            ops.push(Op::Union(base, base + 1));
+        }
+        _ => {
+            // a = h(c) first, then c = a: the self-reference arises by the second union
+            let c = sym("c");
+            ops.push(Op::Add(a.clone()));
+            ops.push(Op::Add(h(c.clone())));
+            ops.push(Op::Add(c.clone()));
+            ops.push(Op::Add(k(a.clone(), b.clone())));
+            ops.push(Op::Union(base, base + 1));
+            ops.push(Op::Union(base + 2, base));
+        }
+    }
+    ops
 }
 
 /// a class that improves more than once within one rebuild: two members, one of which reaches the
@@ -504,9 +599,17 @@ pub fn run(ctx: &mut Ctx) {
             emit_kind::<MinSize>(ctx, &ops, &[], 0, |d| d.to_string(), "minsize", &desc);
             emit_kind::<MinDepth>(ctx, &ops, &[], 0, |d| d.to_string(), "mindepth", &desc);
         }
+        if rng.chance(1, 3) {
+            let ops = gen_selfloop(&mut rng);
+            let desc = enc_ops(&ops);
+            emit_height(ctx, &ops, &desc);
+        }
         // histories with arbitrary unions for the size/depth analyses
         let (ops, _) = gen_history(&mut rng);
         let desc = enc_ops(&ops);
+        if rng.chance(1, 2) {
+            emit_height(ctx, &ops, &desc);
+        }
         emit_kind::<MinSize>(ctx, &ops, &[], 0, |d| d.to_string(), "minsize", &desc);
         emit_kind::<MinDepth>(ctx, &ops, &[], 0, |d| d.to_string(), "mindepth", &desc);
         // rewriting histories (valid rules only) for all three
